@@ -26,6 +26,12 @@ ENGINES = [
         "kind_free_text": "hand-assembled Foundry artifacts are run through halmos' run_contract; TLC executes deploy/setUp/test message sequences on the reference EVM and classifies the outcomes",
     },
     {
+        "name": "frontier-model",
+        "path": "spec/Frontier.tla spec/Frontier.cfg spec/Evm.tla harness/invgen.py checks/c15.py",
+        "serves_properties": ["C15"],
+        "kind_free_text": "TLC explores all bounded call sequences of generated stateful targets with one reference-EVM transaction per action; halmos' invariant-test verdicts and counterexample sequences are compared / replayed",
+    },
+    {
         "name": "E2-exploration-model",
         "path": "spec/SymExec.tla spec/MC_SymExec*.cfg harness/symexec_replay.py checks/c10.py",
         "serves_properties": ["C10"],
@@ -128,6 +134,13 @@ CHECKS: dict[str, dict] = {
         "text": "Evm.tla carries a per-frame prank record (single-use / start-stop, optional origin) consumed by CALL/STATICCALL/CREATE/CREATE2 made by that frame only, never by cheatcode calls, nested frames or later messages; deal/store/load/etch/warp/roll/fee/chainId/coinbase/difficulty update the world or the block; the k-th svm.create*/vm.random* call returns the k-th oracle entry shaped by type and width. Prank histories of length 2-6, each state cheatcode followed by reads on the targeted and an untargeted account, and programs with 1-3 fresh values (widths 1..256, byte sizes 0..64, oracle entries random/all-ones/zero, so range, encoding and independence are all visible) are executed by TLC and compared with every covering halmos path.",
         "note": "Where Foundry's behaviour is version dependent (prank over an active prank, pranked DELEGATECALL/CALLCODE, console) the specification says 'unmodelled' and the case is skipped. Dynamic fresh values are compared up to trailing padding. Balances above 2^128 are outside halmos' documented model.",
         "design_ref": "5 C14",
+    },
+    "C15": {
+        "engine": "frontier-model",
+        "technique": "Frontier.tla: TLC's breadth-first search over whole-transaction actions (Evm!Run) brute-forces every bounded call sequence; verdicts of run_contract compared and reported sequences replayed on Evm.tla",
+        "text": "Frontier.tla specifies bounded invariant testing (any sequence of <= d calls target x function x arguments x sender x value from the post-setUp world, reverted calls dropped, the invariant and target assertions checked after each call; states merged only when their worlds are equal, by a VIEW). For generated two-word state machines whose functions make the finite domains complete (arguments masked to 0..3, senders compared with one owner, values with 1) TLC decides breakability within depth d and prints a shortest breaking sequence. halmos' run_contract with --invariant-depth d must FAIL iff an invariant break exists; every valid counterexample (call sequence and model captured at the solver callback) is concretised and replayed on Evm.tla and must break the invariant.",
+        "note": "Timestamps are not read by the generated targets; target/exclude filter combinations are exercised by the filter scenarios of the thorough tier. Recorded finding: an assertion failing inside a target is printed but not part of the verdict.",
+        "design_ref": "5 C15, A.4",
     },
     "C18": {
         "engine": "config-model",
